@@ -1139,6 +1139,10 @@ func runC13(r *Rand, tier string, o *Out) {
 	emitN += 3
 	o.Count("scenario:a-subscriber-that-cannot-be-written-to")
 	// a neighbour on the same connection that never reads
+	if out := o.Do("P", "sg.stats", true); out != "ok" {
+		o.Fail("subscribers of an object whose statistics are on: "+strings.SplitN(strings.TrimPrefix(out, "fail:"), " ", 2)[0], "sg.stats => "+out)
+	}
+	o.Count("scenario:statistics-on")
 	if out := o.Do("P", "sg.neighbour", true); out != "ok" {
 		o.Fail("subscriptions: "+strings.SplitN(strings.TrimPrefix(out, "fail:"), " ", 2)[0]+": a subscriber whose neighbour on the connection does not read", "sg.neighbour => "+out)
 	}
